@@ -52,6 +52,9 @@ M = {
   ("benign-isTurn-reorder", "src/parameters.cpp", "  return orient == CellOrientation::E || orient == CellOrientation::W ||", "  return orient == CellOrientation::W || orient == CellOrientation::E ||", H, []),
  ],
  "C05": [
+  ("fixed-pin-upper-arc-with-the-offset-sign-kept", PD + "place_detailed.cpp", "        constraint_arcs.emplace_back(Ar, -xtopo_.cellPos(c) - pin_offs);", "        constraint_arcs.emplace_back(Ar, -xtopo_.cellPos(c) + pin_offs);", V, ["AP"]),
+  ("benign-fixed-pin-upper-arc-as-a-negated-sum", PD + "place_detailed.cpp", "        constraint_arcs.emplace_back(Ar, -xtopo_.cellPos(c) - pin_offs);", "        constraint_arcs.emplace_back(Ar, -(xtopo_.cellPos(c) + pin_offs));", H, []),
+  ("model-builder-counts-fewer-pins-than-given", PD + "incr_net_model.cpp", "  netLimits_.push_back(netLimits_.back() + cells.size());", "  netLimits_.push_back(netLimits_.back() + cells.size() - 1);", V, ["MX"]),
   ("shift-reads-y-offsets-for-x", PD + "place_detailed.cpp", "      int pin_offs = xtopo_.netPinOffset(net, i);", "      int pin_offs = ytopo_.netPinOffset(net, i);", V, ["AX"]),
   ("acceptance-reversed", PD + "place_detailed.cpp", "    auto [feasible, val] = valueOnInsert(c, row, candidate);\n    if (feasible && val < bestValue) {", "    auto [feasible, val] = valueOnInsert(c, row, candidate);\n    if (feasible && val > bestValue) {", V, ["G8"]),
   ("probe-not-restored", PD + "place_detailed.cpp", "  updateCellPos(c, newP);\n  long long newValue = value();\n  updateCellPos(c, oldP);\n", "  updateCellPos(c, newP);\n  long long newValue = value();\n", V, ["R3"]),
